@@ -322,8 +322,12 @@ func (c *Ctx) writeEvidence(pr *ProofResult, violations int) {
 		"violations":  violations,
 	}
 	b, _ := json.MarshalIndent(ev, "", " ")
-	os.MkdirAll(filepath.Join(c.Root, "evidence"), 0o755)
-	if err := os.WriteFile(filepath.Join(c.Root, "evidence", c.Prop+".json"), b, 0o644); err != nil {
+	evdir := os.Getenv("VERIF_EVIDENCE_DIR")
+	if evdir == "" {
+		evdir = filepath.Join(c.Root, "evidence")
+	}
+	os.MkdirAll(evdir, 0o755)
+	if err := os.WriteFile(filepath.Join(evdir, c.Prop+".json"), b, 0o644); err != nil {
 		Fatalf("cannot write evidence: %v", err)
 	}
 }
